@@ -1,7 +1,13 @@
 //! Scratch: dump generated corpus statistics / one rendered package.
 fn main() {
     let args: Vec<String> = std::env::args().collect();
-    let cases = vh_comp::spaces::corpus(args.get(1).map(|s| s == "thorough").unwrap_or(false));
+    let which = args.get(1).map(|s| s.as_str()).unwrap_or("quick");
+    let cases = match which {
+        "c06" => vh_comp::c06gen::cases(&[8, 64, 256], &vh_comp::c06gen::CONTEXTS, true),
+        "thorough" => vh_comp::spaces::corpus(true),
+        "compact" => vh_comp::spaces::corpus_compact(false),
+        _ => vh_comp::spaces::corpus(false),
+    };
     let mut per: std::collections::BTreeMap<&str, usize> = Default::default();
     for c in &cases { *per.entry(c.space).or_default() += 1; }
     eprintln!("{} cases {:?}", cases.len(), per);
